@@ -19,6 +19,13 @@ import types
 REGISTRY = {}          # id -> Contract
 
 FRAME_LABEL = "frame: no module-level state of exo is written"
+# memo tables of new_eff keyed by the callee's proc object (an immutable LoopIR node, hashed by identity);
+# an entry is computed from the key alone: globenv(proc.body), the proc's effects, its simplified copy
+DEFAULT_MODIFIES = {"exo.rewrite.new_eff:_globenv_proc_cache", "exo.rewrite.new_eff:_proc_effs_cache",
+                    "exo.rewrite.new_eff:_simple_proc_cache"}
+FRAME_ASSUMPTION = ("frame: the three memo tables of new_eff keyed by a callee's proc object (_globenv_proc_cache, "
+                    "_proc_effs_cache, _simple_proc_cache) may be written; every other module-level container of "
+                    "exo.* must be left as found by each function under contract")
 
 
 def module_state():
@@ -95,7 +102,7 @@ class Contract:
         self.native_entry = None  # fn(g, fn, a): native call used by the replay
         self.known = {}          # label -> known-finding id (documentation only)
         self.timeout_ms = None
-        self.modifies = set()    # module-level containers the target may write ("module:name")
+        self.modifies = set(DEFAULT_MODIFIES)    # module-level containers the target may write ("module:name")
         if self.id in REGISTRY:
             raise ValueError(f"duplicate contract {self.id}")
         REGISTRY[self.id] = self
